@@ -75,10 +75,13 @@ Step(e) ==
                    [point |-> e.vals, bounds |-> rb])
             /\ UNCHANGED <<scn, lo, hi, cons, rb, claimedUnsat, dead>>
       [] e.e = "Return" ->
-            /\ Mon("C16.SolutionExact", e.res # "SAT" \/ IsSolution(Asg(e.sol)),
+            /\ Mon("C16.SolutionExact", e.res \notin {"SAT", "OPTIMAL"} \/ IsSolution(Asg(e.sol)),
                    [sol |-> e.sol, cons |-> cons])
             /\ Mon("C16.NoSpuriousUnsat", e.res # "UNSAT" \/ planted = {},
                    [planted |-> planted, cons |-> cons])
+            /\ UNCHANGED <<scn, lo, hi, cons, rb, planted, claimedUnsat, dead>>
+      [] e.e = "Callback" ->      \* an improving solution reported during an optimisation
+            /\ Mon("C16.SolutionExact", IsSolution(Asg(e.sol)), [sol |-> e.sol, cons |-> cons])
             /\ UNCHANGED <<scn, lo, hi, cons, rb, planted, claimedUnsat, dead>>
       [] e.e = "Panic" ->
             /\ dead' = TRUE
